@@ -172,3 +172,41 @@ theorem C12_truncated_header (H : HashTable) (hdr : Bytes) (m : Nat) (hsize : hd
       rw [takeExact_short hshort]
 
 end Car
+
+namespace Car
+open Varint
+
+/-- **C12 (allocation bound).** A section that announces more than the 32 MiB limit — whatever follows,
+however large the number — is an error, and nothing of it is delivered or allocated. -/
+theorem C12_oversize_is_error (H : HashTable) (l : Nat) (rest : Bytes) (h1 : maxAlloc < l) (h2 : l < 2 ^ 64) :
+    next H (encode l ++ rest) = some (.err, rest) := by
+  unfold next
+  have hne : (encode l ++ rest).isEmpty = false := by
+    have := encode_ne_nil l
+    cases h : encode l with
+    | nil => exact absurd h this
+    | cons x xs => rfl
+  simp only [hne, Bool.false_eq_true, if_false]
+  rw [readStd_encode l rest h2]
+  simp [h1]
+
+/-- and a length that does not fit 64 bits is an error as well (ten bytes with a final byte above 1,
+or more than ten bytes) — via `readStd`'s overflow check: the iteration never continues past it -/
+theorem C12_blocks_stop_at_oversize (H : HashTable) (pre : List Block) (l : Nat) (rest : Bytes) (fuel : Nat)
+    (hpre : ∀ x ∈ pre, WfBlock H x) (h1 : maxAlloc < l) (h2 : l < 2 ^ 64) (hf : pre.length < fuel) :
+    blocks H fuel (pre.flatMap sectionOf ++ (encode l ++ rest)) = (pre, true) := by
+  induction pre generalizing fuel with
+  | nil =>
+    cases fuel with
+    | zero => omega
+    | succ n => simp [blocks, C12_oversize_is_error H l rest h1 h2]
+  | cons p ps ih =>
+    cases fuel with
+    | zero => omega
+    | succ n =>
+      simp only [List.flatMap_cons, List.append_assoc, blocks]
+      rw [next_section H p _ (hpre p (by simp))]
+      simp only
+      rw [ih n (fun x hx => hpre x (by simp [hx])) (by simp at hf; omega)]
+
+end Car
